@@ -318,6 +318,8 @@ def run(chk, F):
     run_r6(chk, F)
     from rules import c06_lookup
     c06_lookup.run(chk, c)
+    from rules import c06_spans
+    c06_spans.run(chk, F)
     chk.assumptions += [
         "decides three structural panic sources in dora-parser; value-dependent unwrap/index sites in dora-frontend "
         "and termination of the type checker are not decided",
